@@ -7,6 +7,25 @@ class NotDumpable(Exception):
     pass
 
 
+def _reg_drives_q_at_construction():
+    """does Reg.__init__ put the initial value on q?  (read from the source of the tree under test, not assumed)"""
+    import ast
+    from common import REPO
+    try:
+        tree = ast.parse(open(os.path.join(REPO, 'py4hw/logic/storage.py'), encoding='utf-8').read())
+        for c in tree.body:
+            if isinstance(c, ast.ClassDef) and c.name == 'Reg':
+                for m in c.body:
+                    if isinstance(m, ast.FunctionDef) and m.name == '__init__':
+                        return any(isinstance(n, ast.Call) and isinstance(n.func, ast.Attribute) and n.func.attr == 'put'
+                                   and ast.unparse(n.func.value) in ('self.q', 'q') for n in ast.walk(m))
+    except Exception:
+        pass
+    return False
+
+POWERUP_Q = _reg_drives_q_at_construction()
+
+
 def load_sigs():
     return json.load(open(os.path.join(COQ, 'Gen', 'gen.json')))['sigs']
 
@@ -43,6 +62,7 @@ class Dump:
         self.wid = {id(w): i for i, w in enumerate(self.wires)}
         self.combs, self.seqs, self.drivers, self.st0 = [], [], [], []
         self.seq_objs = []
+        self.init_pokes = []     # constructor-time puts: a register shows its (masked) initial value on q at power-up
         for leaf in self.sim.propagatables:
             self.combs.append(self.leaf_term(leaf, 'propagate'))
         for drv, ds in self.sim.clockDrivers.items():
@@ -50,6 +70,8 @@ class Dump:
             for leaf in ds.clockables:
                 t, st = self.leaf_term(leaf, 'clock')
                 idxs.append(len(self.seqs)); self.seqs.append(t); self.st0.append(st); self.seq_objs.append(leaf)
+                if type(leaf).__name__ == 'Reg' and POWERUP_Q:
+                    self.init_pokes.append((self.w(leaf.q), leaf.reset_value))
             en = 'None' if drv.enable is None else 'Some %d%%nat' % self.w(drv.enable)
             self.drivers.append('{| d_enable := %s; d_leaves := [%s] |}' % (en, '; '.join('%d%%nat' % i for i in idxs)))
 
@@ -188,7 +210,8 @@ def compare(tag, dumps_steps, timeout=600):
     for i, (dp, steps, init_vals, trace) in enumerate(dumps_steps):
         body.append(dp.coq_design('d%d' % i))
         exp = '[' + '; '.join(zlist(v) for v in [init_vals] + trace) + ']'
-        items.append(('r%d' % i, 'first_diff %s (run_trace d%d (init d%d d%d_st0) %s)' % (exp, i, i, i, steps_term(steps))))
+        pk = '[' + '; '.join('(%d%%nat, %s)' % (w, zlit(v)) for w, v in dp.init_pokes) + ']'
+        items.append(('r%d' % i, 'first_diff %s (run_trace d%d (init_poked d%d d%d_st0 %s) %s)' % (exp, i, i, i, pk, steps_term(steps))))
     res = coq_eval(tag, '\n'.join(body), items, timeout=timeout)
     out = []
     for i in range(len(dumps_steps)):
